@@ -54,6 +54,12 @@ def gen_case(rng: Rng, i: int, tier: str):
         if tier == "thorough" and r.chance(0.5):
             st["line_p"] = r.pick([0.005, 0.02, 0.1])  # line-level pre-emption inside py7zr frames
         scheds.append(st)
+    rbk = rng.sub("blocks")
+    multiblock = None
+    if rbk.chance(0.12):
+        # one member spans many input blocks (small block seam, incompressible content) while the decoder's clock jumps: several
+        # update events for a single member
+        multiblock = {"block": rbk.pick([512, 4096]), "len": rbk.pick([9000, 20000, 50000])}
     rm = rng.sub("many")
     if rm.chance(0.015):
         # hundreds of members: more than a thousand events, a backlog at close() well beyond any queue bound
@@ -62,7 +68,12 @@ def gen_case(rng: Rng, i: int, tier: str):
                "knobs": {"block": 32768, "chunk": 128000000, "bufsize": 8192}, "rng": rm.randrange(1 << 30), "target": "path"}
         return {"archive": arc, "call": {"op": "extractall"}, "open": rm.pick(["path", "stream"]), "handler_ms": rm.pick([10, 10, 1]), "clock_jump": 0.0,
                 "scheds": [{"kind": "random", "stay": 0.5, "seed": rm.randrange(1 << 30)}], "cb_shape": "plain", "sink": "factory"}
-    return {"archive": arc, "call": op, "open": r.pick(["path", "stream", "anon"]), "handler_ms": r.wpick([(4, 0), (2, 1), (2, 10), (2, 50)]),
+    if multiblock and arc["sessions"]:
+        arc["sessions"][0]["ops"].insert(0, {"op": "writestr", "name": "big-multiblock.bin", "content": {"tex": "rand", "len": multiblock["len"], "seed": rbk.randrange(1 << 30)}, "as": "bytes"})
+        if op.get("op") == "extract" and "big-multiblock.bin" not in op.get("targets", []):
+            op["targets"] = list(op["targets"]) + ["big-multiblock.bin"]
+    return {"archive": arc, "block": multiblock["block"] if multiblock else None,
+            "call": op, "open": r.pick(["path", "stream", "anon"]), "handler_ms": r.wpick([(4, 0), (2, 1), (2, 10), (2, 50)]),
             "clock_jump": r.pick([0.0, 0.3, 1.5]), "scheds": scheds,
             # what else the callback object is: a plain object, a progress tracker that is also a sized collection of the
             # members finished so far (empty, hence falsy, when extraction starts), or an object whose truth value is False
@@ -147,7 +158,7 @@ def _one(py7zr, built, case, strat, res):
         os.makedirs(outdir)
         sinkkw = {"path": outdir}
         fsy = FsYield(sched, outdir)
-    with Seams(fs=fs, extra=extra), fsy:
+    with Seams(fs=fs, extra=extra, blocksize=case.get("block")), fsy:
         try:
             target = rsess.READ_PATH if case["open"] == "path" else SimRaw(fs.get(rsess.READ_PATH), readable=True, anonymous=case["open"] == "anon")
             z = py7zr.SevenZipFile(target, "r", password=built.password)
